@@ -1,6 +1,8 @@
 package c15
 
 import (
+	"context"
+	"encoding/json"
 	"math/big"
 	"strconv"
 	"strings"
@@ -8,11 +10,18 @@ import (
 
 	"verifharness/hx"
 
+	admissionv1 "k8s.io/api/admission/v1"
 	corev1 "k8s.io/api/core/v1"
 	metav1 "k8s.io/apimachinery/pkg/apis/meta/v1"
+	"k8s.io/apimachinery/pkg/runtime"
 	"k8s.io/apimachinery/pkg/util/sets"
+	"k8s.io/utils/ptr"
+	"sigs.k8s.io/controller-runtime/pkg/client"
+	"sigs.k8s.io/controller-runtime/pkg/client/fake"
+	"sigs.k8s.io/controller-runtime/pkg/webhook/admission"
 
 	podeni "github.com/AliyunContainerService/terway/pkg/controller/pod-eni"
+	"github.com/AliyunContainerService/terway/pkg/controller/webhook"
 	"github.com/AliyunContainerService/terway/pkg/k8s"
 	"github.com/AliyunContainerService/terway/types"
 	"github.com/AliyunContainerService/terway/types/controlplane"
@@ -84,6 +93,10 @@ func eval(in []*big.Int) []*big.Int {
 			_ = cfg.GetVSwitchIDs()
 		}
 		o.I(2)
+	case 7: // the admission webhook on a pod that carries the pod-networks annotation
+		s, crd := d.Str(), d.Bool()
+		webhookOn(s, crd)
+		o.I(2)
 	case 6: // stored record
 		_, _ = k8s.VerifDeserialize([]byte(d.Str()))
 		o.I(2)
@@ -94,6 +107,27 @@ func eval(in []*big.Int) []*big.Int {
 		return nil
 	}
 	return o.L
+}
+
+var webhookObjs = []client.Object{
+	&corev1.Namespace{ObjectMeta: metav1.ObjectMeta{Name: "ns"}},
+	&corev1.ConfigMap{ObjectMeta: metav1.ObjectMeta{Name: "eni-config", Namespace: "kube-system"},
+		Data: map[string]string{"eni_conf": `{"version":"1","security_groups":["sg-1"],"vswitches":{"cn-a":["vsw-1"]}}`}},
+}
+
+func webhookOn(anno string, crd bool) {
+	pod := &corev1.Pod{TypeMeta: metav1.TypeMeta{Kind: "Pod", APIVersion: "v1"},
+		ObjectMeta: metav1.ObjectMeta{Name: "p", Namespace: "ns", Annotations: map[string]string{types.PodNetworks: anno, types.PodENI: "true"}},
+		Spec:       corev1.PodSpec{Containers: []corev1.Container{{Name: "c", Image: "i"}}}}
+	raw, _ := json.Marshal(pod)
+	cl := fake.NewClientBuilder().WithScheme(types.Scheme).WithObjects(webhookObjs...).Build()
+	cfg := &controlplane.Config{EnableTrunk: ptr.To(true), EnableWebhookInjectResource: ptr.To(true), IPAMType: "default"}
+	if crd {
+		cfg.IPAMType = types.IPAMTypeCRD
+	}
+	req := &admission.Request{AdmissionRequest: admissionv1.AdmissionRequest{Kind: metav1.GroupVersionKind{Kind: "Pod", Version: "v1"}, Namespace: "ns", Name: "p",
+		Object: runtime.RawExtension{Raw: raw}}}
+	_ = webhook.VerifPodWebhook(context.Background(), req, cl, cfg)
 }
 
 var units = []string{"", "", "K", "M", "G", "T", "B", "KB", "MB", "GB", "TB", "KiB", "MiB", "GiB", "TiB", "k", "m", "g", "t", "kb", "Kb", "mib", "b",
@@ -174,6 +208,15 @@ func randBytes(r *hx.Rand, n int) string {
 	}
 	return string(b)
 }
+
+// pod-networks documents the webhook has to cope with: entries without / with a null allocation type, without interface, with odd types
+var netJSONs = []string{`{"podNetworks":[{"interface":"eth0","vSwitchOptions":["vsw-1"],"securityGroupIDs":["sg-1"]}]}`,
+	`{"podNetworks":[{"interface":"eth0","allocationType":null}]}`,
+	`{"podNetworks":[{"interface":"eth0","allocationType":{"type":"Elastic"}},{"interface":"eth1"}]}`,
+	`{"podNetworks":[{"interface":"eth0","allocationType":{"type":"Fixed","releaseStrategy":"TTL","releaseAfter":"5m"}}]}`,
+	`{"podNetworks":[{"interface":"eth0","allocationType":{"type":"Fixed","releaseStrategy":"TTL","releaseAfter":"x"}}]}`,
+	`{"podNetworks":[{"interface":"eth0","allocationType":{}}]}`, `{"podNetworks":[{}]}`, `{"podNetworks":[{"interface":"eth0","eniOptions":null,"extraRoutes":null}]}`,
+	`{"podNetworks":[{"interface":"eth0"},{"interface":"eth0"}]}`, `{"podNetworks":[{"interface":"abcdefghijklmnopq"}]}`}
 
 var jsons = []string{``, `null`, `{}`, `[]`, `{"podNetworks":null}`, `{"podNetworks":[null]}`, `{"podNetworks":[{"interface":null,"vSwitchOptions":null}]}`, `[null]`, `[{"interfaceName":1}]`,
 	`{"a":null}`, `{"a":{"0":1,"x":2,"-1":3}}`, `{"a":{"0":1},"b":{"1":{}}}`, `{"a":[]}`, `{"a":{"99999999999999999999":1}}`, `"str"`, `1`, `{"podNetworks":[{"interface":"eth0","defaultRoute":true,"extraRoutes":[{"dst":"x"}]}]}`,
@@ -267,6 +310,18 @@ func gen(r *hx.Rand) [][]*big.Int {
 		}
 		var b hx.B
 		add(b.I(5).Str(mutateJSON(ro, jsons[ro.Intn(len(jsons))])).Str(mutateJSON(ro, jsons[ro.Intn(len(jsons))])))
+	}
+	for _, j := range append(append([]string{}, netJSONs...), jsons...) {
+		for _, crd := range []bool{false, true} {
+			var b hx.B
+			add(b.I(7).Str(j).Bool(crd))
+			var b3 hx.B
+			add(b3.I(3).Str(j))
+		}
+	}
+	for i := 0; i < n/6; i++ {
+		var b hx.B
+		add(b.I(7).Str(mutateJSON(ro, netJSONs[ro.Intn(len(netJSONs))])).Bool(ro.Bool()))
 	}
 	return cs
 }
